@@ -16,6 +16,7 @@ def untilSummary (s : St) (i : Nat) : Nat → St
 
 /-- `tmp normal <n>`: every worker runs until its summary is sent, then the process exits.
 `tmp gap <n>`: worker 0 takes its first step, the handler runs, the process exits.
+`tmp late <n>`: the handler runs, then worker 0 reaches `decompress_to_ntf`, then the process exits.
 reply: number of files left behind -/
 def stepTmp : List String → String
   | ["normal", n] =>
@@ -30,6 +31,13 @@ def stepTmp : List String → String
     match n.toNat? with
     | some n =>
       match runGen (init n) [.work 0, .sigint, .exit] with
+      | some s => toString (leftovers s)
+      | none => "not-enabled"
+    | none => "bad-op"
+  | ["late", n] =>
+    match n.toNat? with
+    | some n =>
+      match runGen (init n) [.sigint, .work 0, .exit] with
       | some s => toString (leftovers s)
       | none => "not-enabled"
     | none => "bad-op"
